@@ -305,6 +305,24 @@ pub fn generate(g: &mut Gen, thorough: bool) {
             g.push(super::opg_line(&super::shipped_grids_of(&def), &def, "apply", dir, &d), "model-grid-borders", true);
         }
     }
+    // adapt: every four letter word over the designator alphabet (repeated and missing axes included), with
+    // and without a unit suffix
+    {
+        let letters = ['e', 'n', 'u', 'f', 'w', 's', 'd', 'p'];
+        let d = data(&mut g.rng, 2);
+        for a in letters {
+            for b in letters {
+                for c in letters {
+                    for e in letters {
+                        let w: String = [a, b, c, e].iter().collect();
+                        let sfx = *g.rng.pick(&["", "", "_deg", "_gon", "_rad", "_any"]);
+                        let def = if g.rng.chance(1, 2) { format!("adapt from={w}{sfx}") } else { format!("adapt to={w}{sfx}") };
+                        g.push(case("default", &[], &def, &d), "oracle-adapt-words", true);
+                    }
+                }
+            }
+        }
+    }
     // the stack operators with every kind of argument list
     for sub in ["push", "pop", "flip", "roll", "unroll"] {
         for args in ["0", "0,0", "-0,0", "1,0", "1,1", "2,1", "2,-1", "2,2", "3,-3", "1,2,3,4", "4,4,4,4", "5", "1,,2", "1,x", "1e30,-1", "9223372036854775807,-1", "-9223372036854775808,1", "1.5,1", "2,1,1", "", "nan,1", "inf,1", "3,0"] {
